@@ -1,7 +1,7 @@
 """C18 — no input drives the unchecked code out of bounds.
 
 Not a separate execution model: the prediction / tagging / filtering / writing / (de)serialisation harnesses of C01, C02, C03,
-C06, C14, C15 and the feature-configuration harness C13 are re-run with the obligations of every unchecked operation asserted
+C06, C14, C15, the sentence-reuse histories of C08 and the feature-configuration harness C13 are re-run with the obligations of every unchecked operation asserted
 (the models of get_unchecked[_mut], str::get_unchecked, unwrap_unchecked, String::as_mut_vec + UTF-8 validity of what is
 written through it, from_utf8_unchecked, deserialize_unchecked on self-produced tokens only) and with the authors'
 debug_assert!s compiled into the MIR.  Only violations of those obligations count here.
@@ -26,18 +26,20 @@ DELEGATES = {
     'C14_harness': lambda j: j['n'] == 1,
     'C15_harness': lambda j: j['n'] <= 3,
     'C13_harness': lambda j: j['n'] <= 2 and j['shape'] in ('c2-suffix', 'c4-fixed8', 't2-cache', 'c2-mb', 't2-two'),
+    'C08_harness': lambda j: j['n'] <= 2 and j['final'] != 'B' and len(j['hist']) >= 2 and any(x in j['hist'] for x in ('pA', 'pAs', 'tok', 'part')),
 }
 BOUNDS = {
     'quick': {'re-run harness jobs': 'C01 (n<=3, 8 shapes), C02 (escaping n<=2, spans n=4), C03 (write/parse n<=2), C06 (n<=2, score storing), C14 (n=1), C15 (n<=3), '
-                                     'C13 (n<=2, 5 shapes x 7 feature configurations)', 'obligations': 'see stubs_hit entries starting with precondition:/unsafe: (per call site)'},
-    'thorough': {'re-run harness jobs': 'all thorough jobs of C01, C02, C03, C06, C14, C15, C13'},
+                                     'C13 (n<=2, 5 shapes x 7 feature configurations), C08 (sentence-reuse histories of >= 2 operations with prediction/annotation, n<=2; '
+                                     're-prediction without update; fill_tags after an update that was not followed by a prediction)', 'obligations': 'see stubs_hit entries starting with precondition:/unsafe: (per call site)'},
+    'thorough': {'re-run harness jobs': 'all thorough jobs of C01, C02, C03, C06, C08, C14, C15, C13'},
 }
 OUTSIDE = 'undefined behaviour inside daachorse / hashbrown / bincode / unicode-segmentation (contract models); inputs outside the bounds of the re-run harnesses'
 EXPLANATION = ('Every model of an unchecked operation asserts its precondition and every debug_assert! of the sources is a real MIR assert; the symbolic executions of '
                'the listed harnesses therefore decide, for every path, that no unchecked index is out of range, that every byte offset given to the position map / '
                'str::get_unchecked is a character boundary, and that every string assembled from raw bytes is valid UTF-8.  The evidence lists per call site how many '
                'paths reached each obligation.')
-ASSUMPTIONS = ['as in the delegated harnesses (C01, C02, C03, C06, C13, C14, C15)']
+ASSUMPTIONS = ['as in the delegated harnesses (C01, C02, C03, C06, C08, C13, C14, C15)']
 MUST_REACH = []
 
 
@@ -49,6 +51,10 @@ def jobs(tier, seed):
             if tier == 'thorough' or keep(j):
                 js.append({'name': '%s:%s' % (modname[:3], j['name']), 'mod': modname, 'job': j, 'n': j.get('n', 0),
                            'prog': 'C13:core' if modname == 'C13_harness' else 'core'})
+        if hasattr(mod, 'c18_jobs'):
+            # API states outside the delegated property's own quantifier (re-prediction, fill_tags after an update without prediction)
+            for j in mod.c18_jobs(tier, seed):
+                js.append({'name': '%s:%s' % (modname[:3], j['name']), 'mod': modname, 'job': j, 'n': j.get('n', 0), 'prog': 'core'})
     js.sort(key=lambda j: -j['n'])
     return js
 
